@@ -15,14 +15,15 @@ from ..tla import FD, to_json
 LEVEL = 'exploration'
 
 INVARIANTS = ['TypeOK', 'Law_Entrywise', 'Law_DotCross', 'Law_Lerp', 'Law_ScaleClamp', 'Law_Lengths', 'Law_Limit',
-              'Law_Turns', 'Law_Swizzle', 'Law_Product', 'Law_Transpose', 'Law_RowCol', 'Law_Inverse',
+              'Law_Turns', 'Law_Swizzle', 'Law_Product', 'Law_Transpose', 'Law_RowCol', 'Law_Inverse', 'Law_InverseScaled',
               'Law_Constructors']
 ALL_GROUPS = ('vec2', 'vec3', 'vec4', 'swz', 'mat3', 'mat4', 'inv', 'ctor', 'big')
 
 RULE = ('one case = one (operation, operands) row enumerated by Init of VecMath.tla: all ordered pairs / all members of '
         'integer grids {-R..R}^n plus asymmetric and Pythagorean extras for the vector operations, every letter word of '
         'length 1..4 over {x,y,z,w,q} (and two of length 5) per vector type for swizzling, elementary / weighted-permutation '
-        '/ shear / singular / LCG pseudo-random matrices with entries in -3..3 for @, transpose and ~; cases are distinct '
+        '/ shear / singular / LCG pseudo-random matrices with entries in -3..3 for @, transpose and ~, the same matrices divided '
+        'entrywise by 128 and 1000 (tiny non-zero determinants) for ~; cases are distinct '
         'TLC states; non-trivial = the expected result is not an exception, not all zero and not equal to an operand')
 
 ASSUMPTIONS = [
@@ -38,11 +39,11 @@ ASSUMPTIONS = [
 
 SAMPLE_ROWS = {
     'inv': lambda a, r: r['fmt'] == 'rat' and 0 not in a[0],
+    'invq': lambda a, r: not r['warn'] and a[0][1] == 128 and 0 not in a[0][0],
     'mulvr': lambda a, r: len(a[2]) == 4,
     'limit': lambda a, r: len(a[0]) == 3 and r['fmt'] == 'root' and a[1] == (2, 1),
     'swz': lambda a, r: len(a[0]) == 4 and len(set(a[1])) == 4,
     'lerp': lambda a, r: a[2] == (3, 4) and len(set(a[0])) > 1 and a[0] != a[1],
-    'cross': lambda a, r: 0 not in r['val'],
 }
 
 
@@ -70,7 +71,7 @@ def table_stats(res, g, acc):
         post = g.states[g.out[i][0][2]]
         op, a, r = pre['op'], pre['args'], post['res']
         acc['cases'] += 1
-        key = hash((op, a))
+        key = (op, a)                         # (not hash(): hash(-1) == hash(-2) makes grid rows collide)
         if key not in acc['seen']:            # the same row may be enumerated by two runs (dense matrices 1..NP)
             acc['seen'].add(key)
             acc['nontrivial'] += nontrivial(pre, post)
@@ -93,6 +94,12 @@ def table_stats(res, g, acc):
                     # ... and in isolation: the only non-zero entry of its row and column of the adjugate
                     if num[k] != 0 and sum(1 for j in range(16) if num[j] != 0 and (j // 4 == k // 4 or j % 4 == k % 4)) == 1:
                         acc['cofactor_isolated'][k] += 1
+        elif op == 'invq':        # rational operands D / s: |det| = |det D| / s^4 is tiny, zero only if det D is
+            if r['warn']:
+                acc['inverse_scaled_singular'] += 1
+            else:
+                acc['inverse_scaled_regular'] += 1
+                acc['inverse_scaled_regular_abs_det_below_1e-6'] += abs(r['val'][0][1]) < 1e-6 * a[0][1] ** 4
         elif op == 'limit':
             v, (p, q) = a
             l2 = sum(x * x for x in v)
